@@ -98,10 +98,10 @@ def dumpWith (s : DState) (rd : Query → Res) (casm : Nat → Res) : String :=
   " ".intercalate (perAddr.flatten ++ perClass.flatten)
 
 def dumpNode {σ : Type} (s : DState) (be : Backend σ) (n : Node σ) (v : View) : String :=
-  match n.resolve v with
+  match n.resolve be v with
   | none => "noview"
   | some _ =>
-    dumpWith s (fun q => (n.read be v q).getD .notfound) (fun c => (n.readCasm v c).getD .notfound)
+    dumpWith s (fun q => (n.read be v q).getD .notfound) (fun c => (n.readCasm be v c).getD .notfound)
 
 /-- the spec: `absAt`, read as the property says; for the system contracts (never in
 `DeployedContracts`) the stored value / zero -/
@@ -160,6 +160,28 @@ def step (s : DState) (line : String) : DState × String :=
       ({ s with nw := nw, lg := lg, chain := d :: s.chain },
         "new=" ++ a ++ " legacy=" ++ b ++ (if d.wfb then "" else " not-wf"))
     | _, _ => (s, "bad-op")
+  | "try-store" :: id :: p :: toks =>
+    -- outcome of an operation whose result is not kept (failing block, Simulate, dropped batch)
+    match hexToNat? id, parseDiff toks Diff.empty with
+    | some id, some d0 =>
+      if p != "p1" && p != "p2" then (s, "bad-op") else
+      let d : Diff := { d0 with v2 := p == "p2" }
+      let a := match s.nw.store (newBackend s.cfg) id d with
+        | .ok _ => "ok"
+        | .error e => "err:" ++ errName e
+      let b := match s.lg.store legacyBackend id d with
+        | .ok _ => "ok"
+        | .error e => "err:" ++ errName e
+      (s, "new=" ++ a ++ " legacy=" ++ b ++ (if d.wfb then "" else " not-wf"))
+    | _, _ => (s, "bad-op")
+  | ["try-revert"] =>
+    let a := match s.nw.revert (newBackend s.cfg) with
+      | .ok _ => "ok"
+      | .error e => "err:" ++ errName e
+    let b := match s.lg.revert legacyBackend with
+      | .ok _ => "ok"
+      | .error e => "err:" ++ errName e
+    (s, "new=" ++ a ++ " legacy=" ++ b)
   | ["revert"] =>
     let (nw, a) := match s.nw.revert (newBackend s.cfg) with
       | .ok n => (n, "ok")
